@@ -61,6 +61,10 @@ func c07dbRound(t *testing.T, run *vlib.Run, round int) {
 			db.Close(ctx)
 		}
 	}()
+	conflictRound := round%2 == 1 // a fourth document takes conflicting branches with bodies too large to stay inline in the revision tree
+	if conflictRound {
+		db.EnableAllowConflicts(t)
+	}
 	collection, ctx := GetSingleDatabaseCollectionWithUser(ctx, t, db)
 	if _, err := collection.UpdateSyncFun(ctx, c07SyncFn); err != nil {
 		t.Fatalf("sync fn: %v", err)
@@ -92,6 +96,11 @@ func c07dbRound(t *testing.T, run *vlib.Run, round int) {
 			case 1:
 				injected["doc-write-timeout-after-apply"]++
 				return base.VerifDecision{Action: base.VerifFailAfter, Err: base.ErrTimeout}
+			}
+		case strings.HasPrefix(op.Key, base.RevBodyPrefix) && (op.Kind == "AddRaw" || strings.HasPrefix(op.Kind, "Get")):
+			if fr.Intn(3) == 0 {
+				injected["revision-body-"+op.Kind+"-error-inside-update-callback"]++
+				return base.VerifDecision{Action: base.VerifFailBefore, Err: errInjected}
 			}
 		case op.Kind == "WriteCas" && isPrincipalKey(op.Key):
 			switch fr.Intn(8) {
@@ -165,7 +174,53 @@ func c07dbRound(t *testing.T, run *vlib.Run, round int) {
 			defer wg.Done()
 			for k := 0; k < opsPer; k++ {
 				kind := wr.Intn(10)
+				if conflictRound && wr.Chance(1, 3) {
+					kind = 100
+				}
 				switch {
+				case kind == 100: // conflicting branch / tombstone of a leaf on d4, pushed with ancestry
+					cur, gerr := collection.GetDocument(ctx, "d4", DocUnmarshalAll)
+					var hist []string
+					gen := 1
+					deleted := false
+					if gerr == nil && cur != nil && len(cur.History) > 0 {
+						ids := make([]string, 0, len(cur.History))
+						for id := range cur.History {
+							ids = append(ids, id)
+						}
+						sort.Strings(ids)
+						parent := vlib.Pick(wr, ids)
+						if wr.Bool() {
+							leaves := cur.History.GetLeaves()
+							sort.Strings(leaves)
+							parent = vlib.Pick(wr, leaves)
+							deleted = wr.Chance(1, 2)
+						}
+						for p := parent; p != ""; p = cur.History[p].Parent {
+							hist = append(hist, p)
+							if cur.History[p] == nil || cur.History[p].Parent == "" || cur.History[cur.History[p].Parent] == nil {
+								break
+							}
+						}
+						pg, _ := ParseRevID(ctx, parent)
+						gen = pg + 1
+					}
+					newRev := fmt.Sprintf("%d-%c%dw%dk%d", gen, "09afz"[wr.Intn(5)], round, w, k)
+					body := Body{"ch": []string{vlib.Pick(wr, []string{"A", "B"})}, "m": fmt.Sprintf("w%d-k%d-", w, k) + strings.Repeat("x", 300)}
+					if deleted {
+						body[BodyDeleted] = true
+					}
+					doc, _, err := collection.PutExistingRevWithBody(ctx, "d4", body, append([]string{newRev}, hist...), false, ExistingVersionWithUpdateToHLV)
+					amu.Lock()
+					if err == nil && doc != nil {
+						outcomes["branch-push-ok"]++
+						acks = append(acks, ack{"d4", newRev, doc.Sequence})
+					} else if err == nil {
+						outcomes["branch-push-already-known"]++
+					} else {
+						outcomes["branch-push-"+verifErrClass(err)]++
+					}
+					amu.Unlock()
 				case kind <= 5: // document write (create or update with current rev)
 					id := vlib.Pick(wr, docs)
 					body := Body{"ch": []string{vlib.Pick(wr, []string{"A", "B"})}, "m": fmt.Sprintf("w%d-k%d", w, k)}
